@@ -8,7 +8,11 @@ Sub-checks
   trees     every ordered tree of <= N lines and depth <= 4 whose lines are groups, typed definitions, definitions with
             a dotted name (own prefix / prefix of the preceding sibling) and dotted groups; the data type and value
             form rotates with the line number; de-indentation by 1, 2 and 3 levels; same names under different parents
-  widths    every tree of groups/definitions with every assignment of 1, 2 or 4 blanks to the children of each parent
+  tabletrees every tree of groups, definitions and TABLES (leaves) of <= 4 (5) lines: a table after a typed node, a group,
+            a parent node, a de-indentation, at root and nested, and nodes after a table; both entry points
+  widths    every tree of groups/definitions with every assignment of 1, 2 or 4 blanks to the children of each parent,
+            with every uniform base indentation (0, 1, 2, 4 blanks in front of all lines) through add_string AND add_file
+            (trees / layout rotate base indentation and entry point with the case number)
   layout    every way of adding <= 2 decorations (blank line, line of blanks, comment-only line at three indentations,
             trailing comment with four texts) to every small tree; the result must not change
   comments  every literal form (and the one-column tables) x every shape of trailing comment (quote characters of both
@@ -99,7 +103,7 @@ def build_tree(depths, kinds, phase, forms=None):
         par = stack[-1] if stack else root
         idx = par[1]
         base = NAMES[idx]
-        if k in ("G", "D"):
+        if k in ("G", "D", "T"):
             name, first = base, base
         elif k in ("Gd", "Pd"):
             name, first = base + ".x", base
@@ -111,7 +115,13 @@ def build_tree(depths, kinds, phase, forms=None):
             raise ValueError(k)
         par[1] += 1
         par[2] = first
-        if k in ("G", "Gd"):
+        if k == "T":
+            # a table is a leaf: the line after it must not be indented deeper (nodes below a table are not demanded)
+            if i + 1 < len(depths) and depths[i + 1] > d:
+                return None
+            cols = [COLS[c] for c in TREE_TABLES[(i + phase) % len(TREE_TABLES)]]
+            prog.append(table_line(cols, 2, name, d))
+        elif k in ("G", "Gd"):
             prog.append(dict(k="group", d=d, name=name))
         else:
             j = (i + phase) if forms is None else forms[(i + phase) % len(forms)]
@@ -119,6 +129,9 @@ def build_tree(depths, kinds, phase, forms=None):
             prog.append(dict(k="def", d=d, name=name, type=typ, dims=None, lit=L, unit=unit))
         stack.append([d, 0, None])
     return prog
+
+
+TREE_TABLES = [(1, 0), (2, 4), (3,)]         # column combinations (indices into COLS) of the tables placed in trees
 
 
 def parent_lines(prog):
@@ -464,11 +477,11 @@ def pair_program(a, b):
 def make_case(desc):
     """desc (JSON-able) -> (prog, widths, per_parent, tags)   or None if not applicable"""
     sub = desc["sub"]
-    if sub == "trees":
+    if sub in ("trees", "tabletrees"):
         prog = build_tree(desc["depths"], desc["kinds"], desc["phase"])
         if prog is None:
             return None
-        tags = {"tree"}
+        tags = {"tree"} | ({"table", "table-in-tree"} if sub == "tabletrees" else set())
         ds = desc["depths"]
         drop = max([ds[i] - ds[i + 1] for i in range(len(ds) - 1)] + [0])
         if drop >= 2:
@@ -508,7 +521,10 @@ def run_case(desc, sh=None, seen=None):
     if made is None:
         return None
     prog, widths, pp, tags = made
-    text = G.render(prog, widths, pp)
+    base = desc.get("base", 0)
+    text = G.render(prog, widths, pp, base=base)
+    if base:
+        tags = tags | {"base-indentation"}
     entry = desc.get("entry", "string")
     if entry == "file" and "\r" in text:
         return None           # not demanded: a file is read with universal newlines, a bare CR is a line end there
@@ -545,7 +561,8 @@ def run_case(desc, sh=None, seen=None):
         sh.count("sub=" + desc["sub"])
         sh.count("entry=" + entry)
         sh.count("outcome=" + ("ok" if rec is None else rec["behaviour"]))
-        for t in ("dedent>=2", "dotted-name", "blank-line", "comment-line", "trailing-comment", "table", "array",
+        sh.count("base=%d" % base)
+        for t in ("table-in-tree", "dedent>=2", "dotted-name", "blank-line", "comment-line", "trailing-comment", "table", "array",
                   "block"):
             if t in tags:
                 sh.count("feature=" + t)
@@ -558,12 +575,16 @@ def run_case(desc, sh=None, seen=None):
 
 # ------------------------------------------------------------------------------------------------ enumeration
 BOUNDS = dict(
-    quick=dict(tree_all=4, tree_full=5, tree_plain=6, widths_full=4, widths_alt=5, layout2=2, layout1=3, layout1_plain=4,
+    quick=dict(tabletree=4, tree_all=4, tree_full=5, tree_plain=6, widths_full=4, widths_alt=5, layout2=2, layout1=3, layout1_plain=4,
                pairs=False),
-    thorough=dict(tree_all=5, tree_full=6, tree_plain=7, widths_full=5, widths_alt=6, layout2=3, layout1=4, layout1_plain=5,
+    thorough=dict(tabletree=5, tree_all=5, tree_full=6, tree_plain=7, widths_full=5, widths_alt=6, layout2=3, layout1=4, layout1_plain=5,
                   pairs=True),
 )
 NSHARD = 64
+
+
+BASES = (0, 1, 2, 4)                  # uniform base indentation of the whole text
+ENTRIES = ("string", "file")          # DIP.add_string / DIP.add_file
 
 
 def _tree_descs(tier, k, nshard):
@@ -586,7 +607,19 @@ def _tree_descs(tier, k, nshard):
                     wlist = [WIDTH_ROTATION[(idx + s) % len(WIDTH_ROTATION)] for s in (0, 1, 3)]
                 for w in wlist:
                     yield dict(sub="trees", depths=list(ds), kinds=list(kinds), phase=idx % FORMS,
-                                                 widths=list(w))
+                               widths=list(w), base=BASES[idx % 4], entry=ENTRIES[(idx // 4) % 2])
+    # ---- trees with tables as leaves: a table after a typed node / group / parent node / de-indentation, nodes after it
+    for n in range(1, b["tabletree"] + 1):
+        for ds in depth_seqs(n):
+            for kinds in itertools.product(("G", "D", "T"), repeat=n):
+                if "T" not in kinds:
+                    continue
+                idx += 1
+                if not mine(("tt", ds, kinds), k, nshard):
+                    continue
+                for entry in ENTRIES:
+                    yield dict(sub="tabletrees", depths=list(ds), kinds=list(kinds), phase=idx % FORMS,
+                               widths=list(WIDTH_ROTATION[idx % len(WIDTH_ROTATION)]), base=BASES[idx % 4], entry=entry)
     # ---- widths: every assignment of 1/2/4 blanks to the children of each parent line
     for n in range(2, b["widths_alt"] + 1):
         for ds in depth_seqs(n):
@@ -603,8 +636,10 @@ def _tree_descs(tier, k, nshard):
                 if not pl:
                     continue
                 for ws in itertools.product((1, 2, 4), repeat=len(pl)):
-                    yield dict(sub="widths", depths=list(ds), kinds=list(kinds), phase=n,
-                                                 per_parent={str(p): w for p, w in zip(pl, ws)})
+                    for base in BASES:            # every base indentation through both entry points
+                        for entry in ENTRIES:
+                            yield dict(sub="widths", depths=list(ds), kinds=list(kinds), phase=n,
+                                       per_parent={str(p): w for p, w in zip(pl, ws)}, base=base, entry=entry)
     # ---- layout
     for n in range(1, b["layout1_plain"] + 1):
         kindset = ("G", "D", "Pd") if n <= b["layout1"] else ("G", "D")
@@ -615,10 +650,12 @@ def _tree_descs(tier, k, nshard):
                     continue
                 if not mine(("l", ds, kinds), k, nshard):
                     continue
+                c = 0
                 for phase in range(len(LAYOUT_FORMS)):
                     for decs in decoration_sets(n, upto):
+                        c += 1
                         yield dict(sub="layout", depths=list(ds), kinds=list(kinds), phase=phase,
-                                                     decs=[list(x) for x in decs])
+                                   decs=[list(x) for x in decs], base=BASES[c % 4], entry=ENTRIES[(c // 4) % 2])
 
 
 def plan(tier, seed):
@@ -680,7 +717,7 @@ def replay(rec):
 
 def finish(total, tier, seed):
     h = total.hist
-    need = ["sub=trees", "sub=widths", "sub=layout", "sub=literals", "sub=tables", "sub=comments", "entry=string", "entry=file", "feature=dedent>=2",
+    need = ["sub=trees", "sub=tabletrees", "base=0", "base=1", "base=2", "base=4", "sub=widths", "sub=layout", "sub=literals", "sub=tables", "sub=comments", "entry=string", "entry=file", "feature=dedent>=2",
             "feature=dotted-name", "feature=blank-line", "feature=comment-line", "feature=trailing-comment",
             "feature=table", "feature=array", "feature=block"]
     missing = [k for k in need if not h.get(k)]
@@ -700,7 +737,8 @@ MANIFEST = dict(
          "generating AST: every ordered tree of depth <= 4 with <= 4 lines (thorough 5) over groups, dotted groups, typed "
          "definitions and dotted names (own prefix / prefix of the preceding sibling), <= 5 (6) lines without dotted "
          "groups, <= 6 (7) lines of plain groups and definitions, with value forms rotating over bool/int/float/str, "
-         "quoting and units; every assignment of 1/2/4 blanks to the children of each parent for trees of <= 5 (6) "
+         "quoting and units; tables as leaves of such trees (<= 4 (5) lines); every assignment of 1/2/4 blanks to the "
+         "children of each parent x uniform base indentation 0/1/2/4 x add_string/add_file for trees of <= 5 (6) "
          "lines; every way of adding <= 2 decorations (blank line, line of blanks, comment line at 3 indentations, "
          "trailing comment with 4 texts) to trees of <= 2 (3) lines and 1 decoration up to 4 (5) lines; ~300 literal "
          "forms (all type spellings, number notations, 64-bit integers at 2**53+-1, 2**63-1, 2**64-1 compared as exact "
